@@ -157,9 +157,8 @@ func (self *Ast) format(writeIncludes bool) string {
 	if writeIncludes {
 		for _, directive := range self.Includes {
 			printer.printComments(&directive.Node, "")
-			printer.mustWriteString("@include \"")
-			printer.mustWriteString(directive.Value)
-			printer.mustWriteRune('"')
+			printer.mustWriteString("@include ")
+			quoteString(&printer, directive.Value)
 			printer.mustWriteString(NEWLINE)
 			needSpacer = true
 		}
